@@ -1,7 +1,159 @@
-(* C13 - deterministic-CBOR check agrees with RFC 8949 core deterministic rules. *)
-From WP Require Import Base.Prelude Model.Cbor Model.Det.
+(* C13 - The deterministic-encoding check accepts a byte string exactly when it
+   is a sequence of complete CBOR items built from unsigned integers, byte/text
+   strings, arrays and maps that is in RFC 8949 core deterministic form
+   (shortest heads, map keys strictly ascending by encoded bytes); it accepts
+   everything the encoder emits in that subset, never accepts malformed or
+   truncated input, and always terminates.
+
+   Model : Model/Det.v (det_check; Err and Panic both count as Reject).
+   Spec  : Spec/Det.v  (Head, DetItem, DetSeq - from RFC 8949 4.2.1).
+   Proofs: Proofs/Det{Lemmas,Basics,Sound,Complete,Enc}.v, Proofs/Det.v.     *)
+From Coq Require Import Sorting.Sorted.
+From WP Require Import Base.Prelude Model.Cbor Model.Det Spec.Det
+  Proofs.DetBasics Proofs.DetSound Proofs.DetComplete Proofs.DetEnc Proofs.Det.
 Open Scope N_scope.
 
-Theorem c13_smoke : det_check [131; 1; 130; 2; 3; 64] = Accept.
-Proof. reflexivity. Qed.
-Print Assumptions c13_smoke.
+(* ---- main statement ------------------------------------------------------ *)
+Theorem det_iff : forall bs, wfb bs -> (det_check bs = Accept <-> DetSeq bs).
+Proof. exact det_iff_proof. Qed.
+Print Assumptions det_iff.
+
+(* always terminates: the fuel 2*|bs|+2 is never exhausted (any bytes, no wfb) *)
+Theorem det_terminates : forall bs, det_check bs <> Diverge.
+Proof. exact det_terminates_proof. Qed.
+Print Assumptions det_terminates.
+
+(* the lengths returned by deterministicRec keep every slice expression in range
+   and make every loop progress *)
+Theorem det_rec_length_in_bounds : forall f input l,
+  det_rec f input = Ok l -> 1 <= l <= lenN input.
+Proof. exact det_rec_length_in_bounds_proof. Qed.
+Print Assumptions det_rec_length_in_bounds.
+
+(* the verdict does not depend on the fuel constant *)
+Theorem det_top_any_fuel : forall bs f, wfb bs -> (det_fuel bs <= f)%nat ->
+  (det_top f 0 bs = Ok tt <-> DetSeq bs).
+Proof. exact det_top_any_fuel_proof. Qed.
+Print Assumptions det_top_any_fuel.
+
+(* one item, with anything after it: deterministicRec returns exactly its length *)
+Theorem det_rec_item : forall item rest f, DetItem item ->
+  (2 * List.length item <= f)%nat -> det_rec f (item ++ rest) = Ok (lenN item).
+Proof. intros item rest f D. exact (det_rec_complete item D rest f). Qed.
+Print Assumptions det_rec_item.
+
+Theorem det_rec_item_conv : forall f input l, wfb input -> det_rec f input = Ok l ->
+  exists item rest, input = item ++ rest /\ DetItem item /\ lenN item = l.
+Proof. exact det_rec_sound. Qed.
+Print Assumptions det_rec_item_conv.
+
+(* ---- never accepts malformed or truncated input -------------------------- *)
+Theorem not_detseq_rejected : forall bs, wfb bs -> ~ DetSeq bs -> det_check bs = Reject.
+Proof. exact not_detseq_rejected_proof. Qed.
+Print Assumptions not_detseq_rejected.
+
+(* cutting a deterministic item anywhere strictly inside gives a rejected input *)
+Theorem truncated_item_rejected : forall item p q,
+  DetItem item -> item = p ++ q -> p <> [] -> q <> [] -> det_check p = Reject.
+Proof. exact truncated_item_rejected_proof. Qed.
+Print Assumptions truncated_item_rejected.
+
+Theorem detitem_prefix_free : forall a b, DetItem a -> DetItem (a ++ b) -> b = [].
+Proof. exact DetItem_prefix_free. Qed.
+Print Assumptions detitem_prefix_free.
+
+(* ---- accepts what the encoder emits (Model/Cbor.v) ----------------------- *)
+Theorem encoder_uint_det : forall n, n < two64 -> DetItem (enc_uint n).
+Proof. exact enc_uint_det. Qed.
+Theorem encoder_bytes_det : forall s, wfb s -> lenN s < two64 -> DetItem (enc_bytes s).
+Proof. exact enc_bytes_det. Qed.
+Theorem encoder_text_det : forall s bs, wfb s -> lenN s < two64 ->
+  enc_text s = Ok bs -> DetItem bs.
+Proof. exact enc_text_det. Qed.
+Theorem encoder_array_det : forall items, Forall DetItem items -> lenN items < two64 ->
+  DetItem (enc_array_header (lenN items) ++ List.concat items).
+Proof. exact enc_array_det. Qed.
+(* EncodeMap sorts the entries and refuses duplicates: its output is deterministic *)
+Theorem encoder_map_det : forall es bs,
+  Forall (fun kv => DetItem (fst kv) /\ DetItem (snd kv)) es -> lenN es < two64 ->
+  enc_map es = Ok bs -> DetItem bs.
+Proof. exact enc_map_det. Qed.
+Theorem encoder_map_accepted : forall es bs,
+  Forall (fun kv => DetItem (fst kv) /\ DetItem (snd kv)) es -> lenN es < two64 ->
+  enc_map es = Ok bs -> det_check bs = Accept.
+Proof. exact enc_map_accepted. Qed.
+Print Assumptions encoder_map_accepted.
+
+Theorem keys_ascending_all_pairs : forall ks,
+  KeysAscending ks <-> StronglySorted key_lt ks.
+Proof. exact KeysAscending_strongly. Qed.
+Print Assumptions keys_ascending_all_pairs.
+
+(* ---- examples ------------------------------------------------------------ *)
+(* former defects of the Go code (spin / accepted), now rejected *)
+Example rej_5b : det_check [91; 255; 255; 255; 255; 255; 255; 255; 247] = Reject.
+Proof. vm_compute. reflexivity. Qed.
+Example rej_9b : det_check [155; 128; 0; 0; 0; 0; 0; 0; 0] = Reject.
+Proof. vm_compute. reflexivity. Qed.
+Example rej_bb40 : det_check [187; 64; 0; 0; 0; 0; 0; 0; 0] = Reject.
+Proof. vm_compute. reflexivity. Qed.
+Example rej_bb80 : det_check [187; 128; 0; 0; 0; 0; 0; 0; 0] = Reject.
+Proof. vm_compute. reflexivity. Qed.
+
+(* non-shortest head 0x18 0x05; unsorted keys; duplicate keys; truncated array;
+   indefinite-length array; negative integer (not in the supported subset) *)
+Example rej_nonshortest : det_check [24; 5] = Reject.
+Proof. vm_compute. reflexivity. Qed.
+Example rej_unsorted : det_check [162; 2; 0; 1; 0] = Reject.
+Proof. vm_compute. reflexivity. Qed.
+Example rej_dupkey : det_check [162; 1; 0; 1; 0] = Reject.
+Proof. vm_compute. reflexivity. Qed.
+Example rej_truncated : det_check [130; 1] = Reject.
+Proof. vm_compute. reflexivity. Qed.
+Example rej_indefinite : det_check [159; 1; 255] = Reject.
+Proof. vm_compute. reflexivity. Qed.
+Example rej_negint : det_check [32] = Reject.
+Proof. vm_compute. reflexivity. Qed.
+
+(* {1: [2, h'0102'], "ab": 500} followed by a second top-level item 23 *)
+Definition nested_ex : bytes := [162; 1; 130; 2; 66; 1; 2; 98; 97; 98; 25; 1; 244; 23].
+Example acc_nested : det_check nested_ex = Accept.
+Proof. vm_compute. reflexivity. Qed.
+Example acc_smoke : det_check [131; 1; 130; 2; 3; 64] = Accept.
+Proof. vm_compute. reflexivity. Qed.
+Example acc_empty : det_check [] = Accept.
+Proof. vm_compute. reflexivity. Qed.
+
+(* hypotheses are satisfiable on non-trivial values *)
+Example nested_wfb : wfb nested_ex.
+Proof. repeat constructor. Qed.
+Example nested_detseq : DetSeq nested_ex.
+Proof. apply det_iff; [exact nested_wfb | exact acc_nested]. Qed.
+Example smoke_detseq : DetSeq [131; 1; 130; 2; 3; 64].
+Proof. exists [[131; 1; 130; 2; 3; 64]]. split; [repeat constructor; exact detitem_ex | reflexivity]. Qed.
+Example not_detseq_ex : ~ DetSeq [24; 5].
+Proof.
+  intros D. apply det_iff in D; [|repeat constructor].
+  rewrite rej_nonshortest in D. discriminate.
+Qed.
+Example bounds_ex : det_rec 10 [130; 1; 2; 99] = Ok 3.
+Proof. vm_compute. reflexivity. Qed.
+Example truncated_ex : det_check [162; 1; 2; 97; 97] = Reject.
+Proof.
+  apply (truncated_item_rejected _ [162; 1; 2; 97; 97] [64] detitem_map_ex);
+    [reflexivity | discriminate | discriminate].
+Qed.
+(* EncodeMap on unsorted entries {"ab": 500, 1: 2}: sorted on output, accepted *)
+Definition es_ex : list (bytes * bytes) := [([98; 97; 98], [25; 1; 244]); ([1], [2])].
+Example es_ex_ok : Forall (fun kv => DetItem (fst kv) /\ DetItem (snd kv)) es_ex.
+Proof.
+  repeat constructor; cbn [fst snd].
+  - apply (DI_text [97; 98] [98]); [apply (Head_direct 3 2); reflexivity | repeat constructor].
+  - apply (DI_uint 500). apply (Head_2 0 500); [reflexivity | discriminate | reflexivity].
+  - apply (DI_uint 1). apply (Head_direct 0 1); reflexivity.
+  - apply (DI_uint 2). apply (Head_direct 0 2); reflexivity.
+Qed.
+Example es_ex_enc : enc_map es_ex = Ok [162; 1; 2; 98; 97; 98; 25; 1; 244].
+Proof. vm_compute. reflexivity. Qed.
+Example es_ex_accepted : det_check [162; 1; 2; 98; 97; 98; 25; 1; 244] = Accept.
+Proof. apply (encoder_map_accepted es_ex); [exact es_ex_ok | reflexivity | exact es_ex_enc]. Qed.
